@@ -368,6 +368,13 @@ func solveAll(e *Engine, obs []*Obligation, tier int, timeout time.Duration) {
 		switch th {
 		case "seq":
 			as = append(as, attempt{cfg: z3new, query: direct, label: "seq+uf", satExact: true})
+			// hash applications as opaque atoms (sound for unsat): lets the integer reasoning go through
+			n0 := len(as)
+			e.addLifted(&as, ob, msyms, tier)
+			for i := n0; i < len(as); i++ {
+				as[i].satExact = false
+				as[i].label += ", hash values opaque"
+			}
 		case "bv":
 			as = append(as, attempt{cfg: z3new, query: direct, label: "bv", satExact: true}, attempt{cfg: cvc5c, query: direct, label: "bv", satExact: true})
 			if ob.TryInt {
